@@ -65,6 +65,7 @@ type BatchResult struct {
 	ReplayOutcome string            `json:"replay_outcome,omitempty"`
 	MaxTasks      int               `json:"max_tasks"`
 	Dump          []string          `json:"dump,omitempty"`
+	Extra         map[string]int    `json:"extra,omitempty"`
 }
 
 // ReplayFile is the on-disk form of one failing execution.
@@ -192,6 +193,10 @@ func (r *runner) note(o *Outcome) {
 			r.res.Probes["carrier-positioned-behind-a-header"]++
 		}
 	}
+	if c.Chunk.Delay > 0 || c.Runners.SlowEvery > 0 {
+		r.res.Faults["slow-read-or-slow-test"]++
+		r.res.Extra["simulated_hours_passed_while_tasks_slept"] += o.Sim.FakeSleeps
+	}
 	if c.Chunk.Empty > 0 {
 		r.res.Faults["empty-read"] += o.Src.Reads / (2 * c.Chunk.Empty)
 	}
@@ -311,7 +316,7 @@ func TestFreshChild(t *testing.T) {
 	if err := json.Unmarshal(b, &c); err != nil {
 		t.Fatal(err)
 	}
-	res := &BatchResult{Prop: c.Prop, Faults: map[string]int{}, Probes: map[string]int{}}
+	res := &BatchResult{Prop: c.Prop, Faults: map[string]int{}, Probes: map[string]int{}, Extra: map[string]int{}}
 	r := &runner{t: t, job: &Job{Prop: c.Prop}, res: res, keys: map[uint64]bool{}, seqCache: map[uint64]*Outcome{}}
 	vs, o := r.evaluate(&c)
 	fr := FreshResult{Vs: vs, Returned: o.Returned, Verdict: o.Verdict, Err: o.Err, ErrNil: o.ErrNil, NamedItem: o.NamedItem, Sim: o.Sim, Src: o.Src, CallsAtReturn: o.CallsAtReturn, Executions: res.Executions}
@@ -597,7 +602,7 @@ func TestBatch(t *testing.T) {
 	if err := json.Unmarshal(jb, &job); err != nil {
 		t.Fatal(err)
 	}
-	res := &BatchResult{Prop: job.Prop, Faults: map[string]int{}, Probes: map[string]int{}}
+	res := &BatchResult{Prop: job.Prop, Faults: map[string]int{}, Probes: map[string]int{}, Extra: map[string]int{}}
 	r := &runner{t: t, job: &job, res: res, keys: map[uint64]bool{}, seqCache: map[uint64]*Outcome{}}
 	start := time.Now()
 	if job.Replay != "" {
